@@ -201,15 +201,15 @@ def policyOp (st : PState) : List String → PState × String
       | none => (st, "bad-op")
     | none => (st, "bad-op")
   | ["acc", c, o, r, n] =>
-    match (nat? c).bind st.cfgs.lookup, (nat? o).bind st.objs.lookup, parseReq r, parseName n with
+    match (nat? c).bind (fun k => List.lookup k st.cfgs), (nat? o).bind (fun k => List.lookup k st.objs), parseReq r, parseName n with
     | some cfg, some obj, some req, some nm => (st, showRes (handle cfg obj nm req))
     | _, _, _, _ => (st, "bad-op")
   | ["ctx", c, o] =>
-    match (nat? c).bind st.cfgs.lookup, (nat? o).bind st.objs.lookup with
+    match (nat? c).bind (fun k => List.lookup k st.cfgs), (nat? o).bind (fun k => List.lookup k st.objs) with
     | some cfg, some obj => (st, showRes (handleCtxExit cfg obj))
     | _, _ => (st, "bad-op")
   | ["cmp", c, o, n] =>
-    match (nat? c).bind st.cfgs.lookup, (nat? o).bind st.objs.lookup, parseName n with
+    match (nat? c).bind (fun k => List.lookup k st.cfgs), (nat? o).bind (fun k => List.lookup k st.objs), parseName n with
     | some cfg, some obj, some nm => (st, showRes (handleCmp cfg obj nm))
     | _, _, _ => (st, "bad-op")
   | "open" :: i :: rest =>
@@ -223,7 +223,7 @@ def policyOp (st : PState) : List String → PState × String
     | some i => ({ st with world := step st.world (.close i) }, "ok")
     | none => (st, "bad-op")
   | ["wacc", i, o, r, n] =>
-    match nat? i, (nat? o).bind st.objs.lookup, parseReq r, parseName n with
+    match nat? i, (nat? o).bind (fun k => List.lookup k st.objs), parseReq r, parseName n with
     | some i, some obj, some req, some nm =>
       ({ st with world := step st.world (.access i) },
        match st.world.decide i obj nm req with
